@@ -6,6 +6,7 @@ import (
 	"encoding/hex"
 	"fmt"
 	"os"
+	"path/filepath"
 	"reflect"
 	"sort"
 	"strings"
@@ -16,7 +17,7 @@ import (
 
 // C15: outcomes are deterministic.
 
-var c15Kinds = []string{"help-map-default", "man-page", "ini-write-maps", "ini-same-option-in-sections", "ini-two-unknown-sections", "required-list", "command-list", "completion-list", "choice-message", "env-map-default", "help-full", "ini-callbacks-in-sections", "ini-read-then-write", "duplicate-flag-message", "write-after-documents"}
+var c15Kinds = []string{"help-map-default", "man-page", "ini-write-maps", "ini-same-option-in-sections", "ini-two-unknown-sections", "required-list", "command-list", "completion-list", "choice-message", "env-map-default", "help-full", "ini-callbacks-in-sections", "ini-read-then-write", "duplicate-flag-message", "write-after-documents", "write-file-error", "completion-list-large"}
 
 func c15Decl(r *Rand, kind string) *Decl {
 	cfg := &DeclCfg{
@@ -42,6 +43,10 @@ func c15Decl(r *Rand, kind string) *Decl {
 	}
 	if kind == "duplicate-flag-message" {
 		cfg.OptsMin, cfg.OptsMax, cfg.PShortOnly, cfg.PLongOnly, cfg.PNamespace = 5, 8, 0, 0, 0
+	}
+	if kind == "completion-list-large" {
+		// a large program: more option names than any fixed cap a shell integration might think of
+		cfg.OptsMin, cfg.OptsMax, cfg.PShortOnly, cfg.PLongOnly, cfg.PCmds, cfg.SubGroupsMax = 70, 110, 0, 85, 0, 3
 	}
 	d := GenDecl(r, cfg)
 	if kind == "write-after-documents" {
@@ -344,6 +349,44 @@ func c15Run(c *Ctx) {
 			os.Unsetenv("GO_FLAGS_COMPLETION")
 			return strings.Join(got, "\n"), nil
 		}
+	case "completion-list-large":
+		if c.W.Tier == "race" {
+			return
+		}
+		partial := []string{"-", "--", "--o", "--n"}[r.Intn(4)]
+		detail = "completion of " + partial
+		eval = func() (string, error) {
+			_, b := mk()
+			var got []string
+			b.P.CompletionHandler = func(items []flags.Completion) {
+				for _, it := range items {
+					got = append(got, it.Item)
+				}
+			}
+			os.Setenv("GO_FLAGS_COMPLETION", "1")
+			b.P.ParseArgs([]string{partial})
+			os.Unsetenv("GO_FLAGS_COMPLETION")
+			return strings.Join(got, "\n"), nil
+		}
+	case "write-file-error":
+		// a settings file that cannot be written (the directory does not exist yet / the path is a directory): the
+		// same failing call reports the same error, in this process and in any other
+		path := filepath.Join(os.TempDir(), fmt.Sprintf("vh-c15-no-such-dir-%d", c.K), "app.ini")
+		if r.Bool() {
+			path = os.TempDir()
+		}
+		detail = "IniParser.WriteFile(" + path + ")"
+		wopts := flags.IniOptions(r.Intn(8))
+		eval = func() (string, error) {
+			_, b := mk()
+			b.P.ParseArgs(nil)
+			err := flags.NewIniParser(b.P).WriteFile(path, wopts)
+			if err == nil {
+				os.Remove(path)
+				return "", fmt.Errorf("unexpectedly written")
+			}
+			return fmt.Sprintf("%T %v", err, err), nil
+		}
 	case "write-after-documents":
 		rep := 0
 		wopts := flags.IniOptions(flags.IniIncludeDefaults)
@@ -564,7 +607,7 @@ func init() {
 		},
 		MinNontrivial: 100,
 		RaceCases:     3000,
-		Rule: "scenario s = k mod S (S = 480 quick, 6000 thorough), kind = s mod 15: help with pre-populated map options (3-12 keys) as defaults, full help, man page (SOURCE_DATE_EPOCH fixed), INI output of maps under random write options, INI input setting one option in 2-4 sections (preamble, [Application Options], the group's section, a case variant) plus callbacks spread over sections, three unknown sections at once, required-flag list, command list / unknown command, completion list, invalid-choice message, map default from an environment variable with 10 entries, the duplicated-flag error of a declaration with several independent name clashes, INI output and Commands() order with and without an earlier help / man page / command diagnosis on the same parser (sub-commands declared in non-alphabetical order). Each scenario is evaluated 256 times on fresh parsers in one process (SHA-256 of every observable: bytes written, Error.Message, completion items, value snapshot, call log) and again in 2 (quick) / 4 (thorough) different processes whose digests the parent compares. " +
+		Rule: "scenario s = k mod S (S = 480 quick, 6000 thorough), kind = s mod 17: help with pre-populated map options (3-12 keys) as defaults, full help, man page (SOURCE_DATE_EPOCH fixed), INI output of maps under random write options, INI input setting one option in 2-4 sections (preamble, [Application Options], the group's section, a case variant) plus callbacks spread over sections, three unknown sections at once, required-flag list, command list / unknown command, completion list, invalid-choice message, map default from an environment variable with 10 entries, the duplicated-flag error of a declaration with several independent name clashes, INI output and Commands() order with and without an earlier help / man page / command diagnosis on the same parser (sub-commands declared in non-alphabetical order), the error of IniParser.WriteFile to a path that cannot be written, the completion list of a declaration with 70-110 options. Each scenario is evaluated 256 times on fresh parsers in one process (SHA-256 of every observable: bytes written, Error.Message, completion items, value snapshot, call log) and again in 2 (quick) / 4 (thorough) different processes whose digests the parent compares. " +
 			"A canary map ranged once per evaluation counts the distinct iteration orders the runtime actually produced. distinct = (kind, #maps, #options, #commands, output size).",
 		Assumptions: []string{"only iteration-order non-determinism that the Go runtime actually exhibits is reachable; the library has no goroutines, so there is no scheduler to explore"},
 		Technique:   "runtime repetition monitor: digest equality of all observables across 256 in-process evaluations and across separate processes, with a map-order canary; race detector on 16 concurrent goroutines (thorough); multi-step histories on one parser with direct oracles",
